@@ -504,7 +504,7 @@ fn z_of(x: u32, y: u32) -> u32 {
 }
 
 fn c10_subjects(tier: Tier) -> Vec<Vec<u32>> {
-    crate::strs::all_strings(&[A, A + 1, A + 2], if tier == Tier::Thorough { 5 } else { 4 })
+    crate::strs::all_strings(&[A, A + 1, A + 2], if tier == Tier::Thorough { 6 } else { 4 })
 }
 
 /// second set: characters that differ by a multiple of 256 (universe 4): level 1 over its ranges
